@@ -31,8 +31,8 @@ checks = {
    note="Bounds: 2 blocks, depth 5 / 4 from the non-initial root (thorough 6/5). Orphans left by reverts are tracked but not targeted.",
    technique="explicit-state BFS with replay on the real replica.Server vs reference model"),
  "C16": dict(engine=EA, design="§3 E-A, §4 C16",
-   text="Explicit-state BFS over writes (incl. into the added range), user/auto snapshots, grow by one block (up to twice), shrink / garbage / empty size requests (must be refused, key unchanged), reopen, revert to older smaller snapshots and removals, punching on and off; oracles: live data and every promised snapshot equal the model (old bytes unchanged, new range zeros and writable), size persists across reopen.",
-   note="Replica-level (Server.Resize). Controller.Resize ordering belongs to E-B. Bounds: 2-4 blocks, depth 5/7.",
+   text="Explicit-state BFS over writes (incl. into the added range), user/auto snapshots, grow by one block (up to twice), shrink / garbage / empty size requests (must be refused, key unchanged), reopen, revert to older smaller snapshots and removals, punching on and off; oracles: live data and every promised snapshot equal the model (old bytes unchanged, new range zeros and writable), size persists across reopen. Part 2 (engine E-B, C16ctl): Controller.Resize with smaller / equal / garbage / empty sizes and a wrong volume name is refused without touching any replica, the controller size or the frontend; a grow (with every subset of replicas failing the REST resize, interleaved with writes, reads, monitor failures, REST ERR, removal, add/sync/verify) resizes every replica still in service, then the frontend, and a replica that failed is no longer RW.",
+   note="Replica part: 2-4 blocks, depth 5/7. Controller part: model nodes, RF 2-3, depth 3-4 from three memberships.",
    technique="explicit-state BFS with replay on the real replica.Server vs reference model"),
  "C17": dict(engine=EA, design="§3 E-A, §4 C17",
    text="Explicit-state BFS over the replica's open/closed x mode x rebuilding state machine (close, open, set-mode RW/WO/junk, set-rebuilding, reload) with every Server operation attempted as an event in every reachable state: writes are acknowledged only when open and RW/WO, every I/O call on a closed replica fails, removal/replace/revision-counter updates are refused (state unchanged) unless RW, invalid modes and out-of-state rebuilding flags are refused.",
